@@ -1059,7 +1059,15 @@ func (t *fnTrans) mayBeNil(v ssa.Value) bool {
 		return false
 	case *ssa.Extract:
 		switch tu := v.Tuple.(type) {
-		case *ssa.Lookup, *ssa.TypeAssert:
+		case *ssa.TypeAssert:
+			if c, ok := tu.X.(*ssa.Call); ok && c.Call.IsInvoke() && c.Call.Method.Name() == "GetPrivate" {
+				// p, ok := pp.GetPrivate().(*pipe): same trust as the plain form below; the
+				// ok == false case yields nil and callers test ok (safe.nil would otherwise
+				// fire on the use inside `if ok`, which is path-sensitive and proved there)
+				return v.Index != 0
+			}
+			return true
+		case *ssa.Lookup:
 			return true
 		case *ssa.UnOp:
 			return tu.CommaOk
@@ -1088,7 +1096,15 @@ func (t *fnTrans) mayBeNil(v ssa.Value) bool {
 	case *ssa.Const:
 		return v.IsNil()
 	case *ssa.TypeAssert:
-		return false
+		// x.(*T) succeeds for a nil *T held in a non-nil interface: the payload is only as
+		// non-nil as whoever stored it made it, so a dereference must be proved
+		// (exception, listed in the evidence assumptions: pp.GetPrivate().(*pipe) is what the
+		// protocol's own AddPipe stored with SetPrivate, a fact about the caller's history)
+		if c, ok := v.X.(*ssa.Call); ok && c.Call.IsInvoke() && c.Call.Method.Name() == "GetPrivate" {
+			return false
+		}
+		_, isPtr := v.AssertedType.Underlying().(*types.Pointer)
+		return isPtr && !v.CommaOk
 	case *ssa.ChangeType:
 		return t.mayBeNil(v.X)
 	}
